@@ -34,7 +34,9 @@ def trace_validate(ck, module, path, nrecs, name="trace"):
 def c17(ck):
     ck.rule = ("complete transition relation of Joypad.tla (256 button states x 4 selections x 2 latch states x "
                "20 actions) exported by TLC and replayed on Joypad and through the bus/IF; a case is non-trivial "
-               "when the action changes P1 or the latch; plus random recorded histories validated by Trace_Joypad")
+               "when the action changes P1 or the latch; plus random recorded histories (presses, selection writes, IF "
+               "acknowledgements, device time directly and through Core::update of a halted / stopped CPU, IF bit 4 read after "
+               "every event) validated by Trace_Joypad")
     r = tlc("MC_Joypad", workers=4, coverage=True)
     ck.add_tlc("MC_Joypad", r)
     ck.require_coverage(r, ["DoPress", "DoRelease", "DoSelect", "DoCollect"])
@@ -156,7 +158,8 @@ def c14(ck):
     thorough = ck.tier == "thorough"
     ck.rule = ("recorded LCD histories (batches that are multiples of 4 clocks, STAT/LYC writes through the bus, start "
                "positions set by hook in modes 0/1, all 16 STAT masks x 7 LYC values over >3 frames in random partitions) "
-               "validated event by event against Lcd.tla; non-trivial = the event changes LY/mode or raises a request")
+               "and writes to read-only LY and the other LCD-page registers, validated event by event against Lcd.tla; "
+               "non-trivial = the event changes LY/mode or raises a request")
     jobs = [dict(module="MC_Lcd", cfg="MC_Lcd_deep" if thorough else "MC_Lcd", workers=6, coverage=True, timeout=3000),
             dict(module="Thm_Lcd", env={"DEEP": "1"} if thorough else {}, timeout=3000)]
     mc, thm = vlib.tlc_parallel(jobs)
@@ -193,7 +196,7 @@ def c14(ck):
 def c16(ck):
     thorough = ck.tier == "thorough"
     ck.rule = ("recorded OAM DMA histories on an MBC1 machine with random memory: every source page takes its turn, random "
-               "batch partitions (1..300 machine cycles), source edits, OAM writes and restarts at random progress; each "
+               "batch partitions (1..300 machine cycles), source edits, ROM bank switches, OAM writes and restarts at random progress; each "
                "event validated against Dma.tla (length 160); non-trivial = an adv event that copies at least one byte")
     mc = tlc("MC_Dma", workers=6, coverage=True, timeout=1800)
     ck.add_tlc("MC_Dma", mc)
@@ -358,13 +361,28 @@ def record_and_validate_machine(ck, scenarios, tag, jit=False, shards=8, cold=Fa
         files = list(ex.map(rec, range(shards)))
     nsteps = 0
     for i, tp in enumerate(files):
+        kept, pc, dropped = [], None, 0
         with open(tp) as f:
             for line in f:
                 if '"ev":"step"' in line:
                     nsteps += 1
+                    pc = json.loads(line)["o"]["pc"]
+                elif '"ev":"init"' in line:
+                    pc = json.loads(line)["cpu"]["pc"]
                 elif '"ev":"panic"' in line:
+                    # a guest that runs off into memory instructions cannot be fetched from (video / cartridge RAM, echo RAM,
+                    # OAM, the I/O page, IE) stops the emulator by design (Machine.tla: ExecM is not ok there): the scenario
+                    # ends at that point, in every build alike.  A panic anywhere else is the code's.
+                    if pc is not None and not (pc < 0x8000 or 0xC000 <= pc < 0xE000 or 0xFF80 <= pc < 0xFFFF):
+                        dropped += 1
+                        continue
                     r = json.loads(line)
                     ck.mismatch({"kind": "panic", "tag": tag, "jit": jit, "record": r, "trace": tp}, "panic-" + tag)
+                kept.append(line)
+        if dropped:
+            with open(tp, "w") as f:
+                f.writelines(kept)
+            ck.extra["scenarios_that_left_executable_memory"] = ck.extra.get("scenarios_that_left_executable_memory", 0) + dropped
     ck.count(nsteps)
     ck.nontrivial_count += nsteps
     if validate:
@@ -426,7 +444,8 @@ def c09(ck):
     ck.rule = ("machine traces recorded instruction-stepped (build without jit), block-stepped (run_code_block, build without "
                "jit) and in the jit build, over interrupt/halt-heavy programs and structured programs; the time projection of "
                "every step (CPU-reported cycles, clocks delivered to timer/LCD/DMA, pending dispatch cycles) validated against "
-               "Clock.tla by Trace_Clock, including run_frame calls; each step is a case")
+               "Clock.tla by Trace_Clock, including run_frame calls and the progress of an OAM DMA in flight (the step's time "
+               "reaches the DMA engine too; blocks of 100-700 machine cycles, whose reported cycles are plain sums); each step is a case")
     mc = tlc("MC_Clock", workers=6, coverage=True, timeout=1800)
     ck.add_tlc("MC_Clock", mc)
     ck.require_coverage(mc, ["Step", "Halted"])
@@ -550,7 +569,8 @@ def c11(ck):
     ck.rule = ("every (type, ROM-size code, RAM-size code) a loadable file can declare (7 x 12 x 6), loaded through "
                "Core::from_rom_file in an isolated worker (overflow checks on), x controller-register lattice (12 x 6 x 2 "
                "values in the three registers) x addresses (region boundaries; all 65536 in the thorough tier) x "
-               "{read, write, word read, word write}; the observation is completion; a configuration is a case")
+               "{read, write, word read, word write}; plus timer / LCD / DMA / joypad register histories at every device phase and "
+               "bus histories with device time, for completion only; the observation is completion; a configuration is a case")
     thm = tlc("Thm_Bus", timeout=1800)
     ck.add_tlc("Thm_Bus", thm, mc=False)
     mc = tlc("MC_Cart", cfg="MC_Cart_deep" if thorough else "MC_Cart", workers=10, coverage=True, timeout=3000)
@@ -602,7 +622,8 @@ def c10(ck):
     ck.rule = ("cell map computed from Machine.tla's MRead/MWrite by TLC (Gen_Bus) drives a sweep: every non-device address as "
                "write target x probes (the cell, +-1,2,0x7f,0x80,0x100,0x1000,0x2000,0x4000,0x8000, region boundaries, 64 random; "
                "all 65536 in the thorough tier) + fetch view; random bus histories over every implemented I/O register, "
-               "controller registers, device time and joypad input validated against Machine.tla; a probe is a case")
+               "controller registers, device time and joypad input validated against Machine.tla; the translator's fetch compared "
+               "with the interpreter's on instructions straddling the end of bank 0 with banks 1..3 mapped; a probe is a case")
     thm = tlc("Thm_Bus", timeout=1800)
     ck.add_tlc("Thm_Bus", thm, mc=False)
     mp = os.path.join(rundir(), "busmap.json")
@@ -958,7 +979,9 @@ def c03(ck):
                "executions, generated by TLC and materialised on MBC1 and MBC3 ROMs whose banks hold different code at the "
                "same addresses; run with a warm cache, with the cache emptied before every block, and by the interpreter; "
                "every run validated against Machine.tla, the three compared record by record, and the cache-level events of "
-               "the jit runs validated against CodeCache.tla (Transparent after every event); a history is a case")
+               "the jit runs validated against CodeCache.tla (Transparent after every event); cartridges: MBC1/MBC3 with 8 banks, "
+               "MBC3 with 64 and 72 banks, bank numbers that mirror bank 0 (4 of 4, 8 of 8), a fixed-bank block that reads the "
+               "switchable bank as data, and register histories (low, upper, mode) on a 128-bank MBC1; a history is a case")
     mc = tlc("MC_CodeCache", workers=4, coverage=True, timeout=1800)
     ck.add_tlc("MC_CodeCache", mc)
     ck.require_coverage(mc, ["WriteBank", "RunWith"])
@@ -1057,7 +1080,9 @@ def c04(ck):
                "switches, serial output, device-register reads) run with Core::update() in the build without jit and in the "
                "jit build; the two recordings are compared record by record (registers, IME/run state, IF/IE, timer, LCD "
                "position, DMA, joypad, bus writes, serial bytes, hashes of all RAM and of the visible frame buffer) and each "
-               "is validated against Machine.tla by TLC; every emulator step of every program is a case")
+               "is validated against Machine.tla by TLC; cartridges incl. 64-, 72-bank MBC3 and 128-bank MBC1 with mode writes, "
+               "blocks run repeatedly while their inputs change, straight-line code falling through 0x3FFF/0x4000; every emulator "
+               "step of every program is a case")
     mc = tlc("MC_CodeCache", workers=4, coverage=True, timeout=1800)
     ck.add_tlc("MC_CodeCache", mc)
     n = 1500 if thorough else 60
@@ -1176,7 +1201,9 @@ def c19(ck):
                "declared, declared+1), all 256 ROM/RAM-size codes for the decoded sizes; (a) through system::read_header, "
                "Header::valid_checksum, the size getters and create_cart_state in process, (b) through the repository's own "
                "binary on the file, which when it accepts runs a program that reads the last declared ROM byte and every RAM "
-               "bank and then prints a marker; each file is a case")
+               "bank and then prints a marker; header bytes: every value filling 0x134-0x14C, single 0xFF/0x00/0x80 at each summed "
+               "position; for accepted files the built memory (ROM and cartridge-RAM buffer sizes, RAM storage) against the tables; "
+               "each file is a case")
     mc = tlc("MC_Cart", workers=10, coverage=True, timeout=3000)
     ck.add_tlc("MC_Cart", mc)
     out = os.path.join(rundir(), "load.ndjson")
